@@ -285,29 +285,51 @@ func (s c19Suite) Gen(rng *Rng, tier string, w *bufio.Writer, stats *Stats) {
 		// completed, to the graph in progress, and to a graph not started yet: the first two must be refused, the
 		// last is a legitimate dump of the current source; undoing the change must let the resume complete
 		g3 := genSmallGraphsN(rng, 3, true)
-		header(fmt.Sprintf("db=%d source-change", d), g3, codec, batch, shard)
+		// the graph that is already completed at the interruption also comes EMPTY, with nodes but no relationships, and
+		// with a single node / a single relationship (so that a deletion empties it)
+		shape := d % 5
+		switch shape {
+		case 1:
+			g3[0].nodes, g3[0].edges = nil, nil
+		case 2:
+			g3[0].edges = nil
+		case 3:
+			g3[0].nodes = g3[0].nodes[:1]
+			// (plain content, so that deleting and re-adding the relationship restores the source exactly)
+			g3[0].edges = []genEdge{{id: 7, s: g3[0].nodes[0].id, e: g3[0].nodes[0].id, kind: "R", props: "-"}}
+		case 4:
+			g3[0].nodes, g3[0].edges = []genNode{{id: g3[0].nodes[0].id, props: "-"}}, nil
+		}
+		header(fmt.Sprintf("db=%d source-change completed-shape=%d", d, shape), g3, codec, batch, shard)
 		perGraph := func(g genGraph) int {
 			return 6 + 5*(ceil(len(g.nodes), shard)+ceil(len(g.edges), shard)) + len(g.nodes) + len(g.edges)
 		}
 		start1 := 3 + perGraph(g3[0]) // crash points 1..start1 end with the completion checkpoint of graph 0
+		type mutation struct{ apply, undo string }
 		for gi, g := range g3 {
-			for _, dim := range []string{"node", "edge"} {
+			id := 200000 + d*10 + gi
+			muts := []mutation{{fmt.Sprintf("srcadd %s %d", g.name, id), fmt.Sprintf("srcdelnode %s %d", g.name, id)}}
+			if len(g.nodes) > 0 {
+				muts = append(muts, mutation{fmt.Sprintf("srcaddedge %s %d %d %d", g.name, id, g.nodes[0].id, g.nodes[0].id), fmt.Sprintf("srcdeledge %s %d", g.name, id)})
+			}
+			if gi == 0 && shape == 3 { // the graph loses its only relationship
+				e := g.edges[0]
+				muts = append(muts, mutation{fmt.Sprintf("srcdeledge %s %d", g.name, e.id), fmt.Sprintf("srcaddedge %s %d %d %d", g.name, e.id, e.s, e.e)})
+			}
+			if gi == 0 && shape == 4 { // the graph becomes empty
+				muts = append(muts, mutation{fmt.Sprintf("srcdelnode %s %d", g.name, g.nodes[0].id), fmt.Sprintf("srcadd %s %d", g.name, g.nodes[0].id)})
+			}
+			for _, m := range muts {
 				// inside graph 1, after its snapshot checkpoint (2 points) and before its completion
 				k := start1 + 2 + rng.Intn(perGraph(g3[1])-3)
 				fmt.Fprintf(w, "crash %d\n", k)
-				id := 200000 + d*10 + gi
-				add, del := fmt.Sprintf("srcadd %s %d", g.name, id), fmt.Sprintf("srcdelnode %s %d", g.name, id)
-				if dim == "edge" {
-					add = fmt.Sprintf("srcaddedge %s %d %d %d", g.name, id, g.nodes[0].id, g.nodes[0].id)
-					del = fmt.Sprintf("srcdeledge %s %d", g.name, id)
-				}
-				fmt.Fprintln(w, add)
+				fmt.Fprintln(w, m.apply)
 				fmt.Fprintln(w, "resume 0")
 				if gi == 2 {
 					fmt.Fprintln(w, "final")
-					fmt.Fprintln(w, del)
+					fmt.Fprintln(w, m.undo)
 				} else {
-					fmt.Fprintln(w, del)
+					fmt.Fprintln(w, m.undo)
 					fmt.Fprintln(w, "resume 0")
 					fmt.Fprintln(w, "final")
 				}
